@@ -28,11 +28,30 @@
      pushed under its ticket; queued jobs are not lost          ring_no_job_lost
    the inductive invariant all of the above are read off     model_invariant_all_schedules
    "every join eventually returns":
+     The clause as a statement about the model (NOT PROVED for the code as it is now):
+
+       Theorem join_liveness : forall cfg own sched,
+         wf_cfg cfg own -> c_fixed cfg = true -> c_sigfix cfg = true -> terminating_scripts cfg = true ->
+         deadlocked cfg (fst (exec cfg sched)) = false.
+       (+ under a fair scheduler every thread that is not blocked moves eventually, and a measure
+          decreases: no livelock of the spinning loops)
+
+     where deadlocked = some client has not finished and all_blocked; wf_cfg includes c_nested = false.
+     What IS proved:
+     - join_liveness_partial (supporting): the state can change no more EXACTLY when every thread is
+       blocked (so `deadlocked` is the only way a join can wait for ever once the scheduler is fair and
+       the spinning loops are left), and deadlock_is_permanent: such a state never changes again.
+       Missing: that no reachable state of a well-formed configuration is deadlocked, and the
+       fairness/measure argument.
      - for the sleep/wake handshake as it was before           join_liveness_refuted_original (witness schedule,
-       fixes/C10/01-03 the clause is FALSE                        replayed by vm_compute) + deadlock_is_permanent
-     - for the code as it is now: NOT PROVED.  Validated by exhaustive explicit-state search of the
-       model in bounded configurations and by stress / gated replays on the real code (see the
-       check's level_note); the witness above no longer deadlocks (Example witness_survives_fix).
+       fixes/C10/01-03 the clause is FALSE                        replayed by vm_compute)
+     - "started from any threads": when started functions      join_liveness_refuted_nested_start (witness
+       start futures themselves (c_nested = true) the clause      schedule on the code AS IT IS NOW; open finding)
+       is FALSE although they terminate and wait on no future
+     - for the code as it is now with c_nested = false: validated by exhaustive explicit-state search
+       of the model in bounded configurations (1 client/3 workers windows, capacity 4 and 1; 2 clients,
+       capacity 1, whole run) and by stress / gated replays on the real code (see the check's
+       level_note); the witness of the old handshake no longer deadlocks (Example witness_survives_fix).
    worker-pool sizing (grow/idle/shrink), lazy pool creation, full-queue back-pressure: part of the
    model, i.e. covered by the quantifier "every schedule" of the theorems above. *)
 From Coq Require Import ZArith List Bool Lia Arith.
@@ -166,6 +185,12 @@ Theorem join_liveness_refuted_nested_start :
 Proof. exact join_liveness_refuted_nested_start_lemma. Qed.
 Print Assumptions join_liveness_refuted_nested_start.
 
+Theorem join_liveness_partial : forall cfg s,
+  ((forall t clk, fst (step cfg s t clk) = s) <-> all_blocked s = true) /\
+  (all_blocked s = true -> forall sched tr, exec_from cfg s tr sched = (s, tr)).
+Proof. exact join_liveness_partial_lemma. Qed.
+Print Assumptions join_liveness_partial.
+
 Theorem deadlock_is_permanent : forall cfg s tr sched,
   all_blocked s = true -> exec_from cfg s tr sched = (s, tr).
 Proof. exact FutureLiveness.deadlock_is_permanent. Qed.
@@ -213,6 +238,11 @@ Proof. exact ds_fixed_clean. Qed.
 (* the deadlock witness of the old handshake is a real deadlock there, and is none on the code as it is now *)
 Example witness_deadlocks_original : deadlocked (dl_cfg false) (fst (exec (dl_cfg false) dl_sched)) = true.
 Proof. exact dl_deadlock. Qed.
+(* join_liveness_partial is about something: a reachable state in which some thread is not blocked, and one (of the
+   old handshake) in which every thread is *)
+Example ex_not_all_blocked : all_blocked (fst (exec ex_cfg (firstn 20 ex_sched))) = false.
+Proof. vm_compute. reflexivity. Qed.
+
 (* the open finding: three workers in the back-pressure loop of ThreadPool::run (inside start()), the client in join() *)
 Example witness_nested_start : deadlocked ns_cfg (fst (exec ns_cfg ns_sched)) = true.
 Proof. exact ns_deadlock. Qed.
